@@ -8,7 +8,7 @@ LEVEL = "exploration"
 RULE = ("random operation sequences (length 5-200) of __call__(record=True), __call__(record=False) and add(...) on the REAL "
         "FunctionLogger, over points from a 3-value-per-axis lattice in D=1..3 (forces exact repeats AND points sharing k<D "
         "coordinates, which is what mesh polling produces), cache sizes 1..6 (repeated growth), uncertainty levels 0/1/2 (add only "
-        "in 0 and 2), with/without a transformer (linear and log). After EVERY operation the real logger is compared with an "
+        "in 0 and 2), with/without a transformer (linear and log; in half of the transformed sequences the points come from ONE internal lattice while the transformer's box differs from sequence to sequence - bit-identical internal points with different original points, as successive optimisations with re-scaled boxes produce in one process). After EVERY operation the real logger is compared with an "
         "executable list-of-records reference model of the documented semantics (append; precision-weighted merge into the record "
         "whose ALL coordinates match; no-record path bumps only the observation count of the last matching record; growth changes "
         "nothing observable): Xn, X_max_idx, func_count, cache_count, rows 0..Xn of X_orig/X/Y_orig/Y/S/n_evals/X_flag, untouched "
@@ -26,9 +26,11 @@ def seq_batch(n, seed):
     from ..models import LoggerModel
 
     rs = np.random.RandomState(seed)
+    rs2 = np.random.RandomState(seed + 31337)
     viol = {}
     nt = set()
     ops = 0
+    n_ulat = 0
     merges_total = 0
     for s in range(n):
         D = int(rs.randint(1, 4))
@@ -37,7 +39,18 @@ def seq_batch(n, seed):
         tr = str(rs.choice(["none", "lin", "log"]))
         vals = np.array([0.5, 1.0, 3.0]) if tr == "log" else np.array([-1.0, 0.0, 0.5])
         vt = None
-        if tr == "lin":
+        ulat = None
+        if tr != "none" and rs2.rand() < 0.5:
+            # the SAME internal lattice under a transformer that differs from sequence to sequence (as successive
+            # optimisations with re-scaled boxes produce): bit-identical internal points, different original points
+            ulat = np.array([-0.5, 0.0, 0.25, 1.0])
+            if tr == "lin":
+                c, w = float(rs2.choice([-1.0, 0.0, 1.0, 2.5, 150.0])), float(rs2.choice([0.5, 1.0, 2.0]))
+                vt = VariableTransformer(D, np.full((1, D), c - 2 * w), np.full((1, D), c + 2 * w), np.full((1, D), c - w), np.full((1, D), c + w))
+            else:
+                a, dec = float(rs2.choice([0.01, 0.1, 1.0])), float(rs2.choice([10.0, 100.0, 1000.0]))
+                vt = VariableTransformer(D, np.full((1, D), a / 10), np.full((1, D), a * dec * 10), np.full((1, D), a), np.full((1, D), a * dec))
+        elif tr == "lin":
             vt = VariableTransformer(D, np.full((1, D), -4.0), np.full((1, D), 4.0), np.full((1, D), -2.0), np.full((1, D), 2.0))
         elif tr == "log":
             vt = VariableTransformer(D, np.full((1, D), 0.01), np.full((1, D), 100.0), np.full((1, D), 0.1), np.full((1, D), 10.0))
@@ -58,6 +71,10 @@ def seq_batch(n, seed):
             ops += 1
             xo = vals[rs.randint(0, 3, D)]
             u = vt(xo.reshape(1, -1))[0] if vt is not None else xo.copy()
+            if ulat is not None:
+                u = ulat[rs2.randint(0, 4, D)]
+                xo = vt.inverse_transf(u.reshape(1, -1))[0]
+                n_ulat += 1
             # what the logger will compute as original coordinates
             x_back = vt.inverse_transf(u.reshape(1, -1))[0] if vt is not None else u
             y = float(np.round(rs.randn(), 3))
@@ -106,7 +123,7 @@ def seq_batch(n, seed):
         merges_total += merges
         if not failed and had_partial and had_repeat and had_growth:
             nt.add((D, level, cache, tr, min(L // 20, 5), min(merges // 3, 4)))
-    return n, ops, merges_total, sorted(nt), viol
+    return n, ops, merges_total, sorted(nt), viol, n_ulat
 
 
 def cases(tier, seed):
@@ -130,9 +147,9 @@ def cases(tier, seed):
 
 def run_case(case):
     if case["kind"] == "seq":
-        n, ops, merges, nt, viol = seq_batch(case["n"], case["seed"])
+        n, ops, merges, nt, viol, n_ulat = seq_batch(case["n"], case["seed"])
         return {"status": "seq", "sequences": n, "ops": ops, "merges": merges, "nt": nt,
-                "cnt": {"C12.sequences": n, "C12.ops_compared": ops, "C12.merges": merges}, "viol": [{"key": k, "detail": v} for k, v in viol.items()]}
+                "cnt": {"C12.sequences": n, "C12.ops_compared": ops, "C12.merges": merges, "C12.ops_on_shared_internal_lattice_under_varying_transformers": n_ulat}, "viol": [{"key": k, "detail": v} for k, v in viol.items()]}
     return C.run_monitored(case, {"C12"})
 
 
